@@ -60,5 +60,6 @@ R_n0_3 == N0_Routes(3)
 D_n0_3 == Dep(3)
 
 \* liveness in the model: every fair schedule either gets every train out or is stuck for good
-Progress == <>[](AllExited \/ ~ENABLED Next)
+NoAdvance == \A t \in 1..NT : ~ENABLED Advance(t)
+Progress == <>(AllExited \/ [](NoAdvance \/ AllExited))
 =============================================================================
